@@ -1,12 +1,7 @@
-//! C10: harness module (stub — not built yet)
-#![allow(dead_code, unused_imports, unused_variables)]
-use crate::rng::Rng;
-use crate::util::{cases, guarded, hval};
-
-pub fn gen(_seed: u64, _count: usize, _thorough: bool) -> String {
-    String::new()
+//! C10: stepping sessions — generator only; execution is shared with C02 (src/c02.rs).
+pub fn gen(seed: u64, count: usize, thorough: bool) -> String {
+    crate::c02::gen_for(10, seed, count, thorough)
 }
-
-pub fn exec(_input: &str) -> String {
-    String::new()
+pub fn exec(input: &str) -> String {
+    crate::c02::exec(input)
 }
